@@ -223,6 +223,23 @@ def combinator_block(draw, c, spec, kind):
     return {"type": "nest", "outer": first, "inner": inner, "constraints": cs, "alignment": None}
 
 
+def _snap_pins(draw, spec):
+    """Pin indices were drawn relative to the trial count WITHOUT the other constraints; MinimumTrials / Repeat move the
+    ends.  Half of the pins are re-anchored to the final geometry of the block that carries them: first / last trial of
+    its window counted from either end, and one step outside (0, -1, T-1, -T, T, -T-1)."""
+    def visit(b):
+        pins = [x for x in b.get("constraints", []) if x.get("kind") == "pin"]
+        if pins:
+            T = estimate_T(dict(spec, block=b))
+            if T:
+                for x in pins:
+                    if draw(st.booleans()):
+                        x["index"] = draw(st.sampled_from([0, -1, T - 1, -T, -T, T, -T - 1]))
+    for b in S.iter_blocks(spec["block"]):
+        visit(b)
+    return spec
+
+
 @st.composite
 def design_spec(draw, c=None):
     c = c or DEFAULT
@@ -234,7 +251,7 @@ def design_spec(draw, c=None):
         spec["block"] = draw(combinator_block(c, spec, kind))
         if c.get("aux"):
             spec["aux"] = draw(st.integers(0, 2 ** 30))
-        return spec
+        return _snap_pins(draw, spec)
     b = draw(leaf_block(c, factors, derived, multi=(kind == "multi")))
     spec["block"] = b
     T = estimate_T(spec)
@@ -245,7 +262,7 @@ def design_spec(draw, c=None):
         b["constraints"].append({"kind": "min", "k": draw(st.sampled_from([T + 1, T + 2, 2 * T - 1, 2 * T, 2 * T + 1]))})
     if c.get("aux"):
         spec["aux"] = draw(st.integers(0, 2 ** 30))
-    return spec
+    return _snap_pins(draw, spec)
 
 
 def strip_overrides(spec):
@@ -277,6 +294,8 @@ SCENARIO_FEATURES = (
     "strided-window-constrained",        # an uncrossed Window with stride 2-3 that a constraint keeps in the encoding
     "repeat-three",                      # Repeat to three (or three and a bit) repetitions
     "order-constraint-partial",          # LatinSquare / Sequential with a trial count that leaves a partial segment
+    "nested-window-crossed",             # crossing contains a Transition / Window over another Transition (start pushed later twice)
+    "weight-derived-crossed",            # crossing contains a within-trial factor with a weighted level and an uncrossed source
 )
 
 
@@ -313,6 +332,18 @@ def scenario_spec(draw, c=None):
     if "crossed-within-uncrossed-source" in feats:
         dfac("X", ["A", "B"], "within")
         crossing = draw(st.sampled_from([["A", "X"], ["X"], ["X", "A"]]))
+    if "weight-derived-crossed" in feats and "crossed-within-uncrossed-source" not in feats:
+        d = dfac("X", draw(st.sampled_from([["B"], ["A", "B"], ["B", "A"]])), "within", n=draw(st.sampled_from([2, 2, 3])))
+        d["levels"][draw(st.integers(0, len(d["levels"]) - 1))][1] = draw(st.sampled_from([2, 2, 3]))
+        crossing = draw(st.sampled_from([["X"], ["X"], ["A", "X"]])) if "A" not in d["args"] else ["X"]
+        if draw(st.booleans()) and len(B["levels"]) < 4:
+            B["levels"] = [["b%d" % j, 1] for j in range(4)]      # several completions per combination
+    if "nested-window-crossed" in feats:
+        d1 = dfac("P", [draw(st.sampled_from(["A", "B"]))], "transition", width=2)
+        k2 = draw(st.sampled_from(["transition", "transition", "within", "window"]))
+        d2 = dfac("Q", ["P"], k2, width=1 if k2 == "within" else 2)
+        crossing = draw(st.sampled_from([["Q"], ["A", "Q"], ["Q", "B"]]))
+        crossing = [x for x in crossing if x not in d1["args"]] or ["Q"]
     if "exclude-uncrossed-derived" in feats:
         dfac("W", draw(st.sampled_from([["A", "B"], ["B"], ["B", "A"]])), "within")
         constraints.append({"kind": "exclude", "factor": "W", "level": "w%d" % draw(st.integers(0, 1))})
@@ -385,12 +416,16 @@ def scenario_spec(draw, c=None):
     if ("repeat-leftover" in feats or "repeat-three" in feats) and block["type"] == "cross":
         inner_cons = [x for x in constraints if x["kind"] not in ("min",)]
         block["constraints"] = inner_cons
-        extra = (2 * Sz + draw(st.integers(0, 1))) if "repeat-three" in feats else draw(st.integers(1, max(1, 2 * Sz - 1)))
+        ncomb = 1
+        for n_ in crossing:
+            ncomb *= len(S.levels_of(spec, n_))
+        extra = (2 * Sz + draw(st.integers(0, 1))) if "repeat-three" in feats else \
+            draw(st.one_of(st.integers(1, max(1, 2 * Sz - 1)), st.sampled_from([min(ncomb, max(1, Sz - 1)), max(1, Sz - 1), 3])))
         spec["block"] = {"type": "repeat", "block": block, "constraints": [{"kind": "min", "k": T + extra}]}
     if c.get("aux"):
         spec["aux"] = draw(st.integers(0, 2 ** 30))
     spec["scenario"] = sorted(feats)
-    return spec
+    return _snap_pins(draw, spec)
 
 
 def mixed_spec(c=None, p_scenario=0.5):
